@@ -129,6 +129,7 @@ func checkC12(c *Ctx) {
 	poolResetRule(c, "R-pool-reset")
 
 	guards := GuardTable(c, accs)
+	c20GuardedValue(c, guards) // a registry map taken under the lock is not walked after the lock is released
 	guardOf := map[string]string{}
 	for _, g := range guards {
 		if !ri.fields[g.Field] {
